@@ -184,15 +184,17 @@ CLAIMED = {
     ),
     'C16': dict(
         category='other',
-        text='Claimed in part, base() only, for all values: (1) Engine A lemma on the RFC automata of the four RI types: every prefix of a valid value that ends at its path start or right after a "/" of its path '
-             'is a valid value of the same type with no query and no fragment; (2) PathImpl::directory, on every symbolic path of its MIR (loop havocked), returns the whole (empty) path, the EMPTY constant or a prefix '
-             'bytes[..=i] whose last byte is provably "/", and that "/" is the LAST one of the path (Engine S in mirror mode on the backward scan: the result is exactly the text up to the first "/" of the reversed text; '
-             'a search written with Iterator::rposition is the last match by definition); (3) RiRefImpl::base returns bytes[.. find_path(bytes,0).start + len(directory(path))] of its own text — decided semantically over affine terms, so equivalent '
-             're-arrangements pass; (4) the six typed base() wrappers re-wrap exactly that slice (unsafe-site class LEMMA).',
-        design_ref='DESIGN.md §4 C16',
-        note='NOT decided: suffix() (a prefix relation over normalised segment lists — run-time values). Relies on C02 for find_path.',
-        technique='automata inclusion lemma + path-sensitive abstract interpretation of MIR over affine terms (static analysis)',
-        engine='A+D',
+        text='Claimed in part, for all values. base(): (1) Engine A lemma on the RFC automata of the four RI types: every prefix of a valid value that ends at its path start or right after a "/" of its path '
+             'is a valid value of the same type with no query and no fragment; (2) PathImpl::directory returns the whole (empty) path, the EMPTY constant or a prefix bytes[..=i] whose last byte is "/", and that "/" is the LAST one '
+             '(Engine S in mirror mode on the backward scan; Iterator::rposition is the last match by definition); (3) RiRefImpl::base returns bytes[.. find_path(bytes,0).start + len(directory(path))] — decided semantically over affine terms; '
+             '(4) the six typed base() wrappers re-wrap exactly that slice. suffix(), the "only when" half: (5) RiRefImpl::suffix reaches PathImpl::suffix (its only source of Some) only on CFG paths on which the two scheme options AND the two '
+             'authority options compared equal (path-sensitive evaluation of the guards), applies it to (value path, prefix path) and accompanies the result with the value\'s own query and fragment; (6) PathImpl::suffix compares the absoluteness '
+             'of the two paths and then consumes the two normalised-segment iterators in lockstep: one iteration of its loop, on every CFG path, does exactly — (Some, Some, equal) go on; (Some, Some, different) or (None, Some) return None; '
+             '(Some, None) push that value segment and go on; (None, None) return Some(buffer).',
+        design_ref='DESIGN.md §4 C16, §10.11, §10.12',
+        note='NOT decided: that the normalised segments themselves are right (C09\'s undecided sequence) and the reconstruction law as an equality of values; relies on C02 for find_path and on smallvec::IntoIter staying exhausted.',
+        technique='automata inclusion lemma + scanner MIR x reversed specification automaton + path-sensitive guard evaluation over all CFG paths / one loop iteration (static analysis)',
+        engine='A+D+S',
     ),
     'C17': dict(
         category='other',
